@@ -64,6 +64,14 @@ func parseTagAndLength(bytes []byte) (r tagAndLen, off int, e error) {
 }
 
 func parseBitString(bytes []byte) (r BitString, e error) {
+	if len(bytes) == 0 {
+		e = fmt.Errorf("BIT STRING without the unused-bits octet")
+		return r, e
+	}
+	if bytes[0] > 7 || (len(bytes) == 1 && bytes[0] != 0) {
+		e = fmt.Errorf("BIT STRING with invalid unused-bits octet %d", bytes[0])
+		return r, e
+	}
 	r.BitLength = uint64((len(bytes)-1)*8 - int(bytes[0]))
 	r.Bytes = bytes[1:]
 	return
@@ -72,6 +80,10 @@ func parseBitString(bytes []byte) (r BitString, e error) {
 func parseInt64(bytes []byte) (r int64, e error) {
 	if len(bytes) > 8 {
 		e = fmt.Errorf("out of range of int64")
+		return r, e
+	}
+	if len(bytes) == 0 {
+		e = fmt.Errorf("integer without content octets")
 		return r, e
 	}
 
@@ -219,7 +231,7 @@ func ParseField(v reflect.Value, bytes []byte, params fieldParameters) error {
 		return nil
 	case EnumeratedType:
 		val, parse_err := parseInt64(bytes[talOff:])
-		if err != nil {
+		if parse_err != nil {
 			return parse_err
 		}
 
@@ -231,14 +243,17 @@ func ParseField(v reflect.Value, bytes []byte, params fieldParameters) error {
 	}
 	switch val := v; val.Kind() {
 	case reflect.Bool:
-		if parsedBool, parse_err := parseBool(bytes[talOff]); err != nil {
+		if tal.len != 1 {
+			return fmt.Errorf("BOOLEAN with %d content octets", tal.len)
+		}
+		if parsedBool, parse_err := parseBool(bytes[talOff]); parse_err != nil {
 			return parse_err
 		} else {
 			val.SetBool(parsedBool)
 			return nil
 		}
 	case reflect.Int, reflect.Int32, reflect.Int64:
-		if parsedInt, parse_err := parseInt64(bytes[talOff:]); err != nil {
+		if parsedInt, parse_err := parseInt64(bytes[talOff:]); parse_err != nil {
 			return parse_err
 		} else {
 			val.SetInt(parsedInt)
